@@ -21,6 +21,8 @@ const (
 	vxgOpt
 	vxgList
 	vxgAdjoin
+	vxgChoice3 // a | b | c  (one flat three-way choice, as the parser builds it)
+	vxgSeq3    // a b c
 	vxgKinds
 )
 
@@ -39,6 +41,7 @@ type vxG struct {
 	kind int
 	atom int
 	a, b *vxG
+	c    *vxG
 }
 
 // vxGen builds an expression of depth <= depth from symbolic selectors.
@@ -54,6 +57,10 @@ func vxGen(depth, natoms int, binLeafOnly bool) *vxG {
 		g.atom = vxConcrete(vxIntRange(0, natoms-1))
 	case vxgStar, vxgPlus, vxgOpt:
 		g.a = vxGen(depth-1, natoms, binLeafOnly)
+	case vxgChoice3, vxgSeq3:
+		g.a = vxGen(depth-1, natoms, binLeafOnly)
+		g.b = vxGen(0, natoms, binLeafOnly)
+		g.c = vxGen(0, natoms, binLeafOnly)
 	default:
 		g.a = vxGen(depth-1, natoms, binLeafOnly)
 		if binLeafOnly {
@@ -85,6 +92,10 @@ func (g *vxG) text() string {
 		return "(" + g.a.text() + " % " + g.b.text() + ")"
 	case vxgAdjoin:
 		return "(" + g.a.text() + " ++ " + g.b.text() + ")"
+	case vxgChoice3:
+		return "(" + g.a.text() + " | " + g.b.text() + " | " + g.c.text() + ")"
+	case vxgSeq3:
+		return "(" + g.a.text() + " " + g.b.text() + " " + g.c.text() + ")"
 	}
 	return "?"
 }
@@ -168,6 +179,10 @@ func (r *vxRef) nullable(g *vxG, depth int) bool {
 		return r.nullable(g.a, depth+1) && r.nullable(g.b, depth+1)
 	case vxgChoice:
 		return r.nullable(g.a, depth+1) || r.nullable(g.b, depth+1)
+	case vxgChoice3:
+		return r.nullable(g.a, depth+1) || r.nullable(g.b, depth+1) || r.nullable(g.c, depth+1)
+	case vxgSeq3:
+		return r.nullable(g.a, depth+1) && r.nullable(g.b, depth+1) && r.nullable(g.c, depth+1)
 	case vxgStar, vxgOpt:
 		return true
 	case vxgPlus:
@@ -235,6 +250,30 @@ func (r *vxRef) match(g *vxG, at int) (bool, int, any) {
 			return false, 0, nil
 		}
 		return r.match(g.b, at)
+	case vxgChoice3:
+		for _, opt := range []*vxG{g.a, g.b, g.c} {
+			if ok, n, res := r.match(opt, at); ok {
+				return true, n, res
+			}
+			if r.out {
+				return false, 0, nil
+			}
+		}
+		return false, 0, nil
+	case vxgSeq3:
+		ok, n1, r1 := r.match(g.a, at)
+		if !ok {
+			return false, 0, nil
+		}
+		ok, n2, r2 := r.match(g.b, at+n1)
+		if !ok {
+			return false, 0, nil
+		}
+		ok, n3, r3 := r.match(g.c, at+n1+n2)
+		if !ok {
+			return false, 0, nil
+		}
+		return true, n1 + n2 + n3, []any{r1, r2, r3}
 	case vxgStar, vxgPlus:
 		rets := []any{}
 		n := 0
